@@ -268,6 +268,12 @@ func (s *CAStore) addToMemoryCache(
 	}
 
 	data := tmpWriter.Bytes()
+	if uint64(len(data)) != size {
+		// The reservation was made for size bytes while the entry will release
+		// len(data) when it is removed: keep the cache accounting balanced by
+		// letting such blobs take the disk path.
+		return fmt.Errorf("expected %d bytes, got %d", size, len(data))
+	}
 	// The entry becomes readable as soon as it is added, long before the drain
 	// re-verifies it on its way to disk, so the digest must be checked here.
 	if err := s.verify(bytes.NewReader(data), name); err != nil {
